@@ -5,11 +5,12 @@ import FcpptModel.Model.C20
 * the **contracts** the C++ standard gives for the wrapped distributions ([rand.req.dist],
   [rand.dist.uni.int]) — these are *hypotheses* of the range theorems, never proved about libstdc++;
 * what the property says in terms of plain lists (`InInterval`, `ReachesBothEnds`);
-* three concrete engine/distribution pairs used as instances of the model's parameters:
+* concrete engine/distribution pairs used as instances of the model's parameters:
   `replayDist` (replays a recorded output sequence of the real `std::` pair — this is how the driver is
-  fed with libstdc++'s numbers), and the exactly specified pair `ctrEngine` / `modDist`
+  fed with libstdc++'s numbers; `tapeDist` / `tapeGen` do the same for programs with several distribution
+  objects on one engine), and the exactly specified pair `ctrEngine` / `modDist`
   (`harness/c20.cpp` contains the same two classes in C++, so that fcppt's templates are also run over
-  an engine and a distribution that are not from the standard library).
+  an engine and a *stateful* distribution that are not from the standard library).
 -/
 namespace Fcppt.C20
 
@@ -97,18 +98,123 @@ def ctrEngine : Gen Nat where
   min := 0
   max := 4294967295
 
-/-- `mod_dist<T>`: `a + g() % (b - a + 1)` for `a ≤ b` (the harness only uses `b - a < 2^31`);
-state = parameters. `min() = a`, `max() = b`. -/
-def modDist : StdDist Int (Int × Int) where
+/-- `mod_dist<T>`: a distribution *with internal state*: the parameters and the number `k` of values drawn
+since construction / `reset()` (a 32-bit counter).  `operator()` returns `a + (g() + k(k+1)/2) % (b - a + 1)` for
+`a ≤ b` (the harness only uses `b - a < 2^31`) and increments `k`; `param(p)` keeps `k`, `reset()` clears it,
+`==` compares parameters and `k`, `min() = a`, `max() = b`.  Because of `k`, drawing from a copy instead of
+the object itself, losing the state in a copy, or resetting where nothing should be reset changes the
+values that follow. -/
+def modDist : StdDist Int ((Int × Int) × Nat) where
+  ofParam := fun q => (q, 0)
+  param := fun d => d.1
+  setParam := fun d q => (q, d.2)
+  reset := fun d => (d.1, 0)
+  draw := fun {_} G d g =>
+    let r := G.next g
+    (d.1.1 + (Int.ofNat (r.1 + d.2 * (d.2 + 1) / 2)) % (d.1.2 - d.1.1 + 1), (d.1, (d.2 + 1) % 4294967296), r.2)
+  min := fun d => d.1.1
+  max := fun d => d.1.2
+  beq := fun a b => a.1.1 == b.1.1 && a.1.2 == b.1.2 && a.2 == b.2
+
+/-- `operator<<` of `mod_dist`: `a b k` -/
+def modOut (d : (Int × Int) × Nat) : String := s!"{d.1.1} {d.1.2} {d.2}"
+
+/-! ## instance 3: replay of a recorded `std::` run in which several distribution objects share one engine
+
+The outputs are read off the *generator* (the recorded values in the order in which they were produced), so
+that copies of a distribution need no tape of their own.  The distribution state is just the parameters;
+`==` is equality of the parameters (libstdc++'s `uniform_int_distribution` and `uniform_real_distribution`;
+for `normal_distribution` the driver only accepts comparisons where that is the whole story). -/
+
+def tapeGen : Gen (List Nat) :=
+  ⟨fun t => match t with | [] => (0, []) | x :: r => (x, r), 0, 0⟩
+
+def tapeDist {β : Type} [BEq β] (dec : Nat → β) (minF maxF : β × β → β) : StdDist β (β × β) where
   ofParam := fun q => q
   param := fun d => d
   setParam := fun _ q => q
   reset := fun d => d
   draw := fun {_} G d g =>
     let r := G.next g
-    (d.1 + (Int.ofNat r.1) % (d.2 - d.1 + 1), d, r.2)
-  min := fun d => d.1
-  max := fun d => d.2
+    (dec r.1, d, r.2)
+  min := fun d => minF d
+  max := fun d => maxF d
   beq := fun a b => a.1 == b.1 && a.2 == b.2
+
+/-- integers on a tape of naturals -/
+def zigzag (x : Int) : Nat := if x ≥ 0 then 2 * x.toNat else 2 * (-x).toNat - 1
+def unzigzag (n : Nat) : Int := if n % 2 = 0 then Int.ofNat (n / 2) else -Int.ofNat ((n + 1) / 2)
+
+/-! ## the interval each object of a program has been asked for, computed from the program text alone -/
+
+/-- requested interval per distribution slot and per variate slot -/
+structure Bnds where
+  dist : Nat → Option (Int × Int)
+  var : Nat → Option (Int × Int)
+
+def Bnds.empty : Bnds := ⟨fun _ => none, fun _ => none⟩
+
+def pq (p : Param2 Int) : Int × Int := (undecorate p.fst, undecorate p.snd)
+
+/-- effect of one step on the requested intervals, and what the step's observation has to respect:
+`some q` for a draw (the value lies in `q`) and for `look` (`min`/`max`/parameters are `q`), `none` for
+observations that carry no value of the distribution -/
+def boundsStep (a : Act Int) (b : Bnds) : List (Option (Int × Int)) × Bnds :=
+  match a with
+  | .newP i p => ([], { b with dist := upd b.dist i (some (pq p)) })
+  | .new2 i t1 t2 => ([], { b with dist := upd b.dist i (some (undecorate t1, undecorate t2)) })
+  | .copy i j _ => ([], { b with dist := upd b.dist i (b.dist j) })
+  | .swap i j => ([], { b with dist := upd (upd b.dist i (b.dist j)) j (b.dist i) })
+  | .draw i _ => ([b.dist i], b)
+  | .reset _ => ([], b)
+  | .setParam i p => ([], { b with dist := upd b.dist i (some (pq p)) })
+  | .eq _ _ => ([none], b)
+  | .look i => ([b.dist i], b)
+  | .varD k i _ => ([], { b with var := upd b.var k (b.dist i) })
+  | .varP k p _ => ([], { b with var := upd b.var k (some (pq p)) })
+  | .varCopy k l _ => ([], { b with var := upd b.var k (b.var l) })
+  | .vdraw k => ([b.var k], b)
+  | .raw _ => ([none], b)
+
+def boundsScript : List (Act Int) → Bnds → List (Option (Int × Int))
+  | [], _ => []
+  | a :: as, b => (boundsStep a b).1 ++ boundsScript as (boundsStep a b).2
+
+/-- every interval a program asks for satisfies the precondition `min ≤ max` -/
+def ActValid : Act Int → Prop
+  | .newP _ p => undecorate p.fst ≤ undecorate p.snd
+  | .new2 _ t1 t2 => undecorate t1 ≤ undecorate t2
+  | .setParam _ p => undecorate p.fst ≤ undecorate p.snd
+  | .varP _ p _ => undecorate p.fst ≤ undecorate p.snd
+  | _ => True
+
+/-- the observations respect the requested intervals, one by one -/
+def EvsWithin : List (Ev (DVal Int) Int) → List (Option (Int × Int)) → Prop
+  | [], [] => True
+  | .val v :: es, some q :: qs => (q.1 ≤ undecorate v ∧ undecorate v ≤ q.2) ∧ EvsWithin es qs
+  | .look mn mx p _ :: es, some q :: qs => (p = q ∧ undecorate mn = q.1 ∧ undecorate mx = q.2) ∧ EvsWithin es qs
+  | .raw _ :: es, none :: qs => EvsWithin es qs
+  | .eq _ :: es, none :: qs => EvsWithin es qs
+  | _, _ => False
+
+/-! ## programs over several `uniform_container`s: what they may ask for, what they must observe -/
+
+/-- what a program may ask for: index intervals inside the container, writes inside the container -/
+def CActValid {α : Type} (n : Nat) : CAct α → Prop
+  | .ctor _ p => 0 ≤ undecorate p.fst ∧ undecorate p.fst ≤ undecorate p.snd ∧ undecorate p.snd < n
+  | .write pos _ => pos < n
+  | _ => True
+
+/-- every element observation is the container's element at a valid index (of the container `c` the step started from) -/
+def CEvOk {α : Type} (n : Nat) (c : List α) : CEv α → Prop
+  | .made b => b = !c.isEmpty
+  | .elem e idx => idx < n ∧ c[idx]? = some e
+  | .raw _ => True
+
+/-- the index of an observation (factory observations have none) -/
+def CEv.idxLt {α : Type} (n : Nat) : CEv α → Prop
+  | .made _ => True
+  | .elem _ idx => idx < n
+  | .raw _ => True
 
 end Fcppt.C20
